@@ -220,7 +220,8 @@ class CompositeFrontend(ConstrainedFrontend):
             return
 
         if isinstance(s, ModelCacheMixin):
-            new_solvers = s.split()
+            # a piece without variables holds only variable-free constraints: no child is stored under it
+            new_solvers = [ss for ss in s.split() if ss.variables]
             old_solvers = self._solvers_for_variables(s.variables)
             if len(new_solvers) == len(old_solvers):
                 done = set()
